@@ -233,6 +233,21 @@ def cases(tier, rng):
             pos = rng.choice((rng.randrange(256), 256 + rng.randrange(64), rng.choice((0, 63, 64, 255, 256, 319))))
             d = deltas[(r + t) % 4] if t < 2 else rng.choice(deltas)
             out.append(("kem-tamper-single", "tamper %s %s 1 %d %d" % (k, e, pos, d)))
+        # message-component tampering that keeps the decoded payload: bga_m += coset_ntt(e) for a SHORT polynomial e
+        # (a decapsulation that compares only the bg component would accept these)
+        for t in range(2 if not big else 1):
+            kind = (r + t) % 4
+            if kind == 0:
+                ev = [1] + [0] * 63
+            elif kind == 1:
+                ev = [rng.randrange(0, 5) for _ in range(64)]
+            elif kind == 2:
+                ev = [0] * 64
+                ev[rng.randrange(64)] = rng.choice((1, P - 1, 3))
+            else:
+                ev = [rng.choice((0, 0, 1, P - 1, 2, P - 2)) for _ in range(64)]
+            if any(ev):
+                out.append(("kem-tamper-short-ntt", "tamperntt %s %s %s" % (k, e, " ".join(map(str, ev)))))
         cnt = rng.randrange(2, 6)
         mods = " ".join("%d %d" % (rng.randrange(320), rng.choice(deltas + [rng.randrange(1, P)])) for _ in range(cnt))
         out.append(("kem-tamper-multi", "tamper %s %s %d %s" % (k, e, cnt, mods)))
@@ -262,6 +277,8 @@ def compare(case, impl, model):
     # observables the property fixes beyond model = implementation
     if op == "kem" and not impl.startswith("OK "):
         return "honest ciphertext not decapsulated to the encapsulated key"
+    if op == "tamperntt" and impl not in ("NONE", "PANIC"):
+        return "ciphertext with a modified message component accepted"
     if op == "tamper":
         untouched = case.split()[3] == "0"
         if untouched and impl in ("NONE", "PANIC"):
